@@ -37,7 +37,7 @@ func init() {
 func (c13) Meta() fw.Meta {
 	return fw.Meta{
 		ID: "C13",
-		Rule: "case = one trial: a 6-page single-archive file whose every slot carries a generation stamp; 2-8 writer sessions (Open, read generation from a slot in page 0 and one in the last page, sleep, rewrite ALL slots with generation+1, sleep, Sync, sleep, Close) and 2-8 reader sessions (Open, fetch first half, sleep, fetch second half, Close) " +
+		Rule: "case = one trial: a 6-page single-archive file whose every slot carries a generation stamp; the file's first session is its creation (Create with default options, stamp generation 0, Sync, Close) during which the other sessions already try to open it; 2-8 writer sessions (Open, read generation from a slot in page 0 and one in the last page, sleep, rewrite ALL slots with generation+1, sleep, Sync, sleep, Close) and 2-8 reader sessions (Open, fetch first half, sleep, fetch second half, Close) " +
 			"run as goroutines AND as separate processes (mix by PRNG), injected sleeps 0-5 ms between the client-boundary steps. Events (call/acquired/observed/releasing/return) carry CLOCK_MONOTONIC time shared by all processes. " +
 			"oracles: (1) no two [acquired,releasing] intervals overlap; (2) final generation == number of writers and the generations read by writers are exactly 0..W-1; (3) every session sees ONE generation in all slots; " +
 			"(4) the history (inc returns old value / read returns value, Call=before Open, Return=after Close) is linearizable w.r.t. an integer register (porcupine, 60 s timeout => inconclusive); " +
@@ -47,7 +47,7 @@ func (c13) Meta() fw.Meta {
 			"advisory locks bind cooperating default-option handles only (WithoutFlock handles are outside the property)",
 			"recorded [acquired,releasing] intervals are subsets of the real hold intervals, so an observed overlap is a sound conviction; absence of overlap is evidence only for the schedules produced",
 		},
-		Obligations: []string{"trials", "sessions", "sessions_blocked_inprocess", "sessions_blocked_crossprocess", "porcupine_ok", "failed_open_probes", "failed_create_probes", "writer_generations_checked", "reader_uniformity_checked"},
+		Obligations: []string{"trials", "sessions", "sessions_blocked_inprocess", "sessions_blocked_crossprocess", "porcupine_ok", "failed_open_probes", "failed_create_probes", "writer_generations_checked", "reader_uniformity_checked", "creator_sessions"},
 		Race:        true,
 		Workers:     8,
 	}
@@ -201,15 +201,36 @@ func (c13) Run(c *fw.Ctx) {
 	}
 	dir := c.TmpDir()
 	path := filepath.Join(dir, "c13.wsp")
-	db, err := createFile(path, c13Layout())
-	if err != nil {
-		panic(err)
-	}
-	if err := c13Stamp(db, 0); err != nil {
-		panic(err)
-	}
-	db.Sync()
-	db.Close()
+	// the file's first session is its creation: Create (default options) must hold the file like any handle,
+	// so every other session waits until the creator has stamped generation 0, synced and closed
+	var creator c13ev
+	creatorDelays := [2]time.Duration{time.Duration(r.Intn(4)) * time.Millisecond, time.Duration(r.Intn(3)) * time.Millisecond}
+	created := make(chan struct{})
+	creatorDone := make(chan struct{})
+	go func() {
+		defer close(creatorDone)
+		creator = c13ev{ID: -1, Kind: "creator", Proc: "goroutine", ReadGen: -1}
+		creator.Call = monoNow()
+		db, err := createFile(path, c13Layout())
+		creator.Acquired = monoNow()
+		close(created)
+		if err != nil {
+			creator.Err = "create: " + err.Error()
+			return
+		}
+		time.Sleep(creatorDelays[0])
+		if err := c13Stamp(db, 0); err != nil {
+			creator.Err = "stamp: " + err.Error()
+		}
+		if err := db.Sync(); err != nil {
+			creator.Err = "sync: " + err.Error()
+		}
+		time.Sleep(creatorDelays[1])
+		creator.Releasing = monoNow()
+		db.Close()
+		creator.Return = monoNow()
+	}()
+	<-created
 
 	W := 2 + r.Intn(7)
 	R := 2 + r.Intn(7)
@@ -249,6 +270,8 @@ func (c13) Run(c *fw.Ctx) {
 	var mu sync.Mutex
 	var evs []c13ev
 	var wg sync.WaitGroup
+	var cmu sync.Mutex
+	var children []*exec.Cmd
 	for _, p := range plans {
 		p := p
 		wg.Add(1)
@@ -265,6 +288,9 @@ func (c13) Run(c *fw.Ctx) {
 			cmd := exec.Command(exe, "child", "c13", path, strconv.Itoa(p.id), p.kind,
 				strconv.Itoa(int(p.d[0]/time.Microsecond)), strconv.Itoa(int(p.d[1]/time.Microsecond)), strconv.Itoa(int(p.d[2]/time.Microsecond)), logFile)
 			cmd.Env = append(os.Environ(), "GORACE=halt_on_error=0 log_path="+filepath.Join(c.Env.Tmp, "..", "race"))
+			cmu.Lock()
+			children = append(children, cmd)
+			cmu.Unlock()
 			out, err := cmd.CombinedOutput()
 			if err != nil {
 				mu.Lock()
@@ -273,7 +299,31 @@ func (c13) Run(c *fw.Ctx) {
 			}
 		}()
 	}
-	wg.Wait()
+	// generous watchdog: sessions take milliseconds; if some are still blocked after two minutes although every
+	// session that obtained the file has closed its handle, the lock has outlived its handle
+	waited := make(chan struct{})
+	go func() { wg.Wait(); <-creatorDone; close(waited) }()
+	select {
+	case <-waited:
+	case <-time.After(120 * time.Second):
+		cmu.Lock()
+		for _, cm := range children {
+			if cm.Process != nil {
+				cm.Process.Kill()
+			}
+		}
+		cmu.Unlock()
+		mu.Lock()
+		done := len(evs)
+		mu.Unlock()
+		c.Violationf("lock-outlives-handle", fw.J{"plan": fmt.Sprintf("W=%d R=%d", W, R), "sessions_finished": done, "sessions_planned": W + R},
+			"after 120 s %d of %d sessions are still blocked in Open although every session that obtained the file closed its handle long ago: the lock outlived a handle (e.g. a descriptor inherited by a child process)", W+R-done, W+R)
+		return
+	}
+	if creator.Err != "" {
+		c.Violationf("creator-session-error", fw.J{"err": creator.Err}, "the creating session failed: %s", creator.Err)
+		return
+	}
 	if f, err := os.Open(logFile); err == nil {
 		sc := bufio.NewScanner(f)
 		for sc.Scan() {
@@ -286,12 +336,19 @@ func (c13) Run(c *fw.Ctx) {
 	}
 	c.Count("trials", 1)
 	c.Count("sessions", int64(len(evs)))
+	nSessions := len(evs)
 	planDesc := fmt.Sprintf("W=%d R=%d", W, R)
-	if len(evs) != W+R {
-		c.Inconclusive(fmt.Sprintf("%d of %d sessions reported", len(evs), W+R))
+	if nSessions != W+R {
+		c.Inconclusive(fmt.Sprintf("%d of %d sessions reported", nSessions, W+R))
 		return
 	}
+	creator.Gens = []int64{0}
+	evs = append(evs, creator)
 	sort.Slice(evs, func(i, j int) bool { return evs[i].Acquired < evs[j].Acquired })
+	if evs[0].Kind != "creator" {
+		c.Violationf("session-before-creator-closed", fw.J{"events": evs}, "session %d (%s/%s) obtained the file before the creating handle had it", evs[0].ID, evs[0].Kind, evs[0].Proc)
+	}
+	c.Count("creator_sessions", 1)
 	detail := func() fw.J { return fw.J{"plan": planDesc, "events": evs} }
 	for _, e := range evs {
 		if e.Err != "" {
@@ -371,6 +428,9 @@ func (c13) Run(c *fw.Ctx) {
 	}
 	var opsP []porcupine.Operation
 	for _, e := range evs {
+		if e.Kind == "creator" {
+			continue
+		}
 		opsP = append(opsP, porcupine.Operation{ClientId: e.ID, Input: regIn{Inc: e.Kind == "writer"}, Call: e.Call, Output: e.ReadGen, Return: e.Return})
 	}
 	res := porcupine.CheckOperationsTimeout(regModel, opsP, 60*time.Second)
